@@ -339,3 +339,31 @@ Proof.
     rewrite N.land_spec, Hk, andb_true_r in B. exact B. }
   rewrite (Z4 4), (Z4 5), (Z4 6) in T by reflexivity. discriminate.
 Qed.
+
+(* ---------- what the encoder of arcs writes is an acceptable content ---------- *)
+Lemma septets_fuel_suffix f : forall n acc, exists p, septets_fuel f n acc = p ++ acc.
+Proof.
+  induction f as [|f IH]; intros n acc; cbn [septets_fuel].
+  - exists []. reflexivity.
+  - destruct (n =? 0).
+    + exists []. reflexivity.
+    + destruct (IH (n / 128) ((n mod 128 + 128) :: acc)) as [p Hp]. rewrite Hp.
+      exists (p ++ [n mod 128 + 128]). rewrite <- app_assoc. reflexivity.
+Qed.
+
+Lemma sub_identifier_last n : exists p, sub_identifier n = p ++ [n mod 128].
+Proof. unfold sub_identifier. apply septets_fuel_suffix. Qed.
+
+Theorem oid_enc_ok a b rest : oid_ok (oid_enc a b rest) = true.
+Proof.
+  unfold oid_enc.
+  assert (H : forall l : list N, l <> [] -> exists p x, flat_map sub_identifier l = p ++ [x mod 128]).
+  { induction l as [|y l IH]; intros Hl; [congruence|].
+    cbn [flat_map]. destruct l as [|z l'].
+    - cbn [flat_map]. rewrite app_nil_r. destruct (sub_identifier_last y) as [p Hp]. exists p, y. exact Hp.
+    - destruct IH as [p [x Hx]]; [discriminate|]. rewrite Hx. exists (sub_identifier y ++ p), x.
+      rewrite app_assoc. reflexivity. }
+  destruct (H ((40 * a + b) :: rest)) as [p [x Hx]]; [discriminate|].
+  rewrite Hx. unfold oid_ok. rewrite rev_app_distr. cbn [rev app].
+  apply N.ltb_lt. apply N.mod_lt. discriminate.
+Qed.
